@@ -58,7 +58,7 @@ Floats ==
 Chs == {34, 39, 92, 10, 13, 9, 32, 0, 8, 31, 127, 35, 97, 233, 128512, 65279, 55295, 57344, 1114111}
 Strs == {<<>>} \cup {<<c>> : c \in Chs} \cup {<<c1, c2>> : c1 \in {34, 39, 92, 10, 32, 97}, c2 \in {34, 39, 92, 10, 32, 97, 233}}
         \cup {<<34, 34, 97>>, <<97, 34, 34>>, <<39, 39, 97>>, <<97, 39, 39>>, <<34, 34, 34>>, <<39, 39, 39>>, <<97, 10, 10, 98>>,
-              <<10, 97>>, <<32, 10, 32, 97>>, <<92, 110>>, <<97, 92>>, <<116, 114, 117, 101>>, <<49, 50>>, <<97, 46, 98>>}
+              <<10, 97>>, <<32, 10, 32, 97>>, <<92, 110>>, <<31, 97>>, <<127, 70>>, <<0, 48>>, <<233, 8, 98>>, <<97, 92>>, <<116, 114, 117, 101>>, <<49, 50>>, <<97, 46, 98>>}
 Strings == {[v |-> S(s), valid |-> TRUE] : s \in Strs}
 
 Dates == {<<1979, 5, 27>>, <<2000, 2, 29>>, <<2023, 12, 31>>, <<1, 1, 1>>, <<9999, 12, 31>>, <<1900, 2, 28>>, <<2024, 2, 29>>}
